@@ -104,7 +104,28 @@ def truth_project(work):
     files = [('t/Truth.java', src.encode())]
     proj = work + '/truth'
     qrun.write_project(proj, files)
+    # the same methods once more in a source file that is LINKED into the project from outside it
+    out = work + '/truth_outside/Shared.java'
+    os.makedirs(os.path.dirname(out), exist_ok=True)
+    open(out, 'w').write(src.replace('class Truth', 'class Shared'))
+    if not os.path.lexists(proj + '/t/Shared.java'):
+        os.symlink(out, proj + '/t/Shared.java')
+    files.append(('t/Shared.java (symbolic link to a file outside the project)', src.replace('class Truth', 'class Shared').encode()))
     return proj, files
+
+
+def truth_expected(formula):
+    """the lines (2..9, in both files) of the methods for which the formula over ATOMS3 holds, by construction"""
+    f = formula
+    for k, a in zip('ABC', ATOMS3):
+        f = f.replace(a, ' %s ' % k)
+    f = f.replace('&&', ' and ').replace('||', ' or ').replace('!', ' not ')
+    want = Counter()
+    for i, (a, b, cc) in enumerate(itertools.product([0, 1], repeat=3)):
+        if eval(f, {}, dict(A=bool(a), B=bool(b), C=bool(cc))):
+            want[('Truth.java', i + 2)] += 1
+            want[('Shared.java', i + 2)] += 1
+    return want
 
 
 ATOMS3 = ['m.getVisibility() == "public"', 'm.getName() in ["alpha", "beta"]', 'm.getReturnType() == "void"']
@@ -139,6 +160,19 @@ def check_c01_c02(c, result):
     c.tie(tq, res, ip, model, result)
     oracle(c, tq, res, model, result, tfiles, 1)
     c.stats['exhaustive_shapes'] = len(tq)
+    # ... and against the truth known by construction (independent of what the scan found)
+    for (qid, t), f in zip(tq, fs):
+        oc, payload = res.get(qid, ('missing', ''))
+        if oc != 'ok':
+            continue
+        got = Counter((os.path.basename(e[0]), e[1]) for e in qrun.parse_result(payload)[0])
+        want = truth_expected(f)
+        c.stats['truth_by_construction_checked'] += 1
+        miss, extra = want - got, got - want
+        if (pid == 'C01' and miss) or (pid == 'C02' and (extra or miss)):
+            result.violations.append(payload_replay(pid, 'the methods reported differ from those for which the condition holds by construction (%s)' % ('missing' if miss else 'spurious'), [t],
+                                                    'missing (file, line): %s; not expected: %s' % (sorted(miss)[:4], sorted(extra)[:4]), tfiles))
+            break
     # (2) random queries, one and two kinds, predicates, on the generated project
     qs = gen_queries(c, N[c.tier][pid])
     tq2 = [(qid, text_of(q, c.rng)) for qid, q in qs]
@@ -245,6 +279,38 @@ def check_c01_c02(c, result):
     oracle(c, tq10, res10, model10, result, c.files, k10)
     c.stats['literal_state_queries'] = len(tq10)
     c.stats['literal_state_nonempty'] = sum(1 for q_, _ in tq10 if res10.get(q_, ('', ''))[0] == 'ok' and tuples_of(res10[q_][1], 1))
+    # (2i) the query comes from a FILE and stands on one long line (4 KiB .. 70 KB): a conjunction of exclusions over
+    # the observed names, shifted byte by byte so that every literal straddles every buffer boundary once
+    names = [v for v in dict.fromkeys(c.vocab.get('method_declaration', {}).get('getName', [])) if isinstance(v, str) and v.isidentifier()][:12]
+    if names:
+        tq11, files11 = [], {}
+        for j, (target, pad) in enumerate([(4096, p_) for p_ in range(0, 27, 3)] + [(8192, 0), (8192, 5), (16384, 2), (70000, 1)]):
+            atoms, k = [], 0
+            while sum(len(a) + 4 for a in atoms) < target + 200:
+                atoms.append('m.getName() != %s' % querygen.lit(names[k % len(names)] if k % 3 else 'zz%d' % k))
+                k += 1
+            q = 'FROM method_declaration AS m WHERE %s%s SELECT m.getName()' % (' ' * pad, ' && '.join(atoms))
+            qid = 'f%d' % j
+            tq11.append((qid, q))
+            fp = '%s/longq_%d.cql' % (c.work, j)
+            open(fp, 'w').write('/**\n * @id long%d\n */\n%s\n' % (j, q))
+            files11[qid] = fp
+        res11, ip11, _ = c.run(tq11)
+        for qid, q in tq11:
+            oc, payload = res11.get(qid, ('missing', ''))
+            rc, o, e = run([B + '/pathfinder', 'query', '--disable-metrics', '--project', c.proj, '--output', 'json', '--query-file', files11[qid]], timeout=300, env=dict(ENV, HOME=c.work))
+            ls = [l for l in o.decode('utf-8', 'replace').split('\n') if l.startswith('{"output"')]
+            c.stats['query_file_long_lines'] += 1
+            if oc != 'ok':
+                continue
+            want = tuples_of(payload, 1)
+            got = tuples_of(ls[-1], 1) if ls else None
+            if got is None or (pid == 'C01' and want - got) or (pid == 'C02' and got - want):
+                what = 'no answer' if got is None else ('a matching entity is not reported' if want - got else 'an entity is reported for which the condition is false')
+                result.violations.append(payload_replay(pid, 'a query read from a file (one line of %d bytes): %s' % (len(q), what), [q],
+                                                        'with --query: %d results; with --query-file: %s; first difference: %s' % (sum(want.values()), sum(got.values()) if got is not None else e.decode(errors='replace')[-200:],
+                                                                                                                                  str(list(((want - got) + (got - want)).items())[:1])[:300] if got is not None else ''), c.files))
+                break
     # (2d) string literals with multi-byte characters in conditions that are TRUE for (almost) every entity, with and
     # without predicates: a condition cut or re-encoded wrongly loses every match
     tq7, k7 = [], {}
@@ -1313,6 +1379,8 @@ def check_c10_c11(c, result):
             written[t2] = dict(frm='%s:%s' % (hx_('method_declaration'), hx_('m')), select='string:' + hx_('"x  y"'),
                                preds='%s(%s:%s)' % (hx_('p'), hx_('method_declaration'), hx_('x')))
     if pid == 'C10':
+        # plain listings of every populous kind (their snippets are printed in text mode: long lines, wide characters)
+        cases += ['FROM %s AS x SELECT x.getName()' % k for k in ('class_declaration', 'method_declaration', 'variable_declaration', 'method_invocation')] + ['FROM block_comment AS x SELECT x', 'FROM BlockStmt AS x SELECT x.toString()']
         cases += unusual_queries()
         cases += predicate_graphs(rng, 25 if c.tier == 'quick' else 400)
         for _ in range(N[c.tier][pid] // 6):
